@@ -13,11 +13,20 @@ def thenOutcome {σ} (cond : Body σ) (thn : Option (Body σ)) (rb : Option (Boo
 def rbOutcome {σ} (rb : Option (Bool → Body σ)) : Opt :=
   match rb with | none => .absent | some _ => .present .ok
 
-theorem txnM_ret_eq_table {σ : Type} (cond : Body σ) (thn : Option (Body σ)) (rb : Option (Bool → Body σ)) (s : σ) :
-    (txnM cond thn rb s).1 = (txn (outcomeOf (cond .txn s).1) (thenOutcome cond thn rb s) (rbOutcome rb) .never).ret := by
+def invOf (c : Call) : Inv := (c.step, c.ctx, c.byCond)
+
+/-- for arbitrary bodies: the returned error and the sequence of invocations (step, context kind,
+flag) are those of the table entry selected by the outcomes the bodies produced -/
+theorem txnM_eq_table {σ : Type} (cond : Body σ) (thn : Option (Body σ)) (rb : Option (Bool → Body σ)) (s : σ) :
+    let t := txn (outcomeOf (cond .txn s).1) (thenOutcome cond thn rb s) (rbOutcome rb) .never
+    (txnM cond thn rb s).1 = t.ret ∧ (txnM cond thn rb s).2.1 = t.calls.map invOf := by
   unfold txnM thenOutcome rbOutcome
   rcases hc : cond .txn s with ⟨ok, s1⟩
-  cases ok <;> cases thn <;> cases rb <;> simp [txn, outcomeOf]
-  all_goals (split <;> simp_all)
+  cases ok <;> cases thn <;> cases rb <;> simp [txn, outcomeOf, mkCall, invOf]
+  all_goals (split <;> simp_all [mkCall, invOf])
+
+theorem txnM_ret_eq_table {σ : Type} (cond : Body σ) (thn : Option (Body σ)) (rb : Option (Bool → Body σ)) (s : σ) :
+    (txnM cond thn rb s).1 = (txn (outcomeOf (cond .txn s).1) (thenOutcome cond thn rb s) (rbOutcome rb) .never).ret :=
+  (txnM_eq_table cond thn rb s).1
 
 end Eru.Txn
